@@ -328,6 +328,12 @@ pub struct Explorer<'a> {
 	pub probe_split: bool,
 	/// model of the base directory (blocks already accepted by a prelude)
 	pub base_model: Model,
+	/// snapshot explorer: every transition is made by a freshly opened chain object, so state the
+	/// node keeps in memory never outlives one event.  With this set, the history of every new
+	/// state is ALSO executed on one chain object that lives through the whole history (0 = off,
+	/// 1 = the events only, 2 = every enabled probe between any two events as well) and the
+	/// best-chain state it ends in must equal the state reached through restarts.
+	pub live_check: u8,
 }
 
 pub fn case_json(inst: &str, tree: &Tree, prefix: &[Ev]) -> Value {
@@ -358,6 +364,7 @@ impl<'a> Explorer<'a> {
 			parent_first: false,
 			probe_split: false,
 			base_model: Model::default(),
+			live_check: 0,
 		}
 	}
 
@@ -429,6 +436,51 @@ impl<'a> Explorer<'a> {
 		let m0 = self.base_model.clone();
 		self.snap(&mut prefix, &root, &m0, &fp0, &mut remaining, probes, inv, rep, range);
 		let _ = std::fs::remove_dir_all(&root);
+	}
+
+	/// One chain object lives through the whole history (and, at level 2, is offered every enabled
+	/// probe between any two events): the best-chain state it ends in must be the state the
+	/// snapshot path reached with a restart before every event.
+	fn live_path_check(&self, prefix: &[Ev], probes: &[Ev], after_snap: &Fp, rep: &mut Report) {
+		let d = self.sc.fresh("lv");
+		uni::copy_dir(&self.base, &d);
+		let mut live = Live::open_model(self.tree, &d, self.opts, self.base_model.clone());
+		let mut offered = 0u64;
+		for (k, ev) in prefix.iter().enumerate() {
+			if self.live_check >= 2 {
+				for p in probes {
+					if matches!(p, Ev::Reopen | Ev::Compact) || !self.enabled(&live.model, p) {
+						continue;
+					}
+					let m = live.model.clone();
+					let _ = live.apply(p);
+					// a probe is never part of the history: the model does not learn from it
+					live.model = m;
+					offered += 1;
+				}
+			}
+			let o = live.apply(ev);
+			let _ = (k, o);
+		}
+		rep.evaluations += 1;
+		rep.transitions += prefix.len() as u64 + offered;
+		let a = live.fp().only(crate::fp::BEST_CHAIN_KEYS);
+		let b = after_snap.only(crate::fp::BEST_CHAIN_KEYS);
+		if a != b {
+			rep.violation(
+				format!("live:long-lived-node-differs:{}", if self.live_check >= 2 { "with-probes" } else { "events-only" }),
+				format!(
+					"a chain object that lived through the whole history{} ends in another best-chain state than a node restarted before every event: {:?}",
+					if self.live_check >= 2 { " (and was offered every rejected input on the way)" } else { "" },
+					b.diff(&a).into_iter().take(4).collect::<Vec<_>>()
+				),
+				json!({"instance": self.inst, "events": prefix.iter().map(|e| e.show(self.tree)).collect::<Vec<_>>(), "live": true, "probes_between_events": self.live_check >= 2}),
+			);
+		} else {
+			rep.outcome("live:long-lived-node-agrees");
+		}
+		drop(live);
+		let _ = std::fs::remove_dir_all(&d);
 	}
 
 	fn enabled(&self, model: &Model, ev: &Ev) -> bool {
@@ -562,6 +614,10 @@ impl<'a> Explorer<'a> {
 					rep.sample(json!({"instance": self.inst, "history": prefix.iter().chain(std::iter::once(&ev)).map(|e| e.show(self.tree)).collect::<Vec<_>>()}));
 				}
 				prefix.push(ev.clone());
+				// (probe-split mode: every shard walks every state; one of them makes the live run)
+				if self.live_check > 0 && (!self.probe_split || (key % self.shard.1 as u64) as usize == me) {
+					self.live_path_check(prefix, probes, &after, rep);
+				}
 				self.snap(prefix, &d, &m, &after, remaining, probes, inv, rep, child_range);
 				prefix.pop();
 			}
